@@ -56,13 +56,13 @@ CLAIMS = {
         "technique": "MIR sink census + grammar output-alphabet computation (interval sets) + constructor who-may-call census",
     },
     "C16": {
-        "text": "Structural decision of the legend/tag plumbing: rule template decoded from MIR instantiates to `.svgbob .NAME{ DECL }`, one rule per entry in entry order joined by newlines; the drawing receives only input[..legend_start] exactly when the legend parses and the parsed entries become the styles; identifier/tag/entry grammars (extracted pom combinators, PEG-faithful interpreter) accept and reject the statement's witnesses; tags are tried deepest-first (dominance), extend the class list instead of being kept as text.",
+        "text": "Structural decision of the legend/tag plumbing: rule template decoded from MIR instantiates to `.svgbob .NAME{ DECL }`, one rule per entry in entry order joined by newlines; the drawing receives only input[..legend_start] exactly when the legend parses and the parsed entries become the styles; identifier/tag/entry grammars (extracted pom combinators, PEG-faithful interpreter) accept and reject the statement's witnesses; tags are tried deepest-first (dominance), extend the class list instead of being kept as text. L5 `inside` is bounding-box containment: Fragment::can_fit is the conjunction of the four inclusive comparisons between self.bounds() and other.bounds() (truth table over the path conditions; order, early returns and strict complements accepted).",
         "design_ref": "DESIGN.md section 4 C16",
-        "note": "Does not decide geometric enclosure (can_fit float test) nor which text fragments are merged before tag recognition.",
+        "note": "Does not decide what bounds() returns for each shape (C12/C05), float rounding inside can_fit's comparisons, nor which text fragments are merged before tag recognition.",
         "technique": "MIR expression patterns + dominators/control dependence + grammar witness interpretation",
     },
     "C17": {
-        "text": "Structural decision of line-ending / trailing-blank insensitivity: rows come from str::lines on the whole input; a cell is inserted only under !is_whitespace of the inserted character; the cell buffer cannot carry a row count; the legend parser input is CR-filtered (closure predicate read from MIR) or else the grammar accepts CRLF witnesses identically, and 192 witness legends with blanks before line ends parse to the canonical entries on the extracted grammar. W3 models the text preparation before the grammar from its source (string-pipeline evaluator, fail closed) and includes multi-line block witnesses (blanks/CR before line ends inside a block).",
+        "text": "Structural decision of line-ending / trailing-blank insensitivity: rows come from str::lines on the whole input; a cell is inserted only under !is_whitespace of the inserted character; the cell buffer cannot carry a row count; the legend parser input is CR-filtered (closure predicate read from MIR) or else the grammar accepts CRLF witnesses identically, and 192 witness legends with blanks before line ends parse to the canonical entries on the extracted grammar. W3 models the text preparation before the grammar from its source (string-pipeline evaluator, fail closed) and includes multi-line block witnesses (blanks/CR before line ends inside a block). W4 no quoted region of the row grammar line_parse reaches into trailing blanks: the extracted grammar gives the same regions with and without each of four blank suffixes on every row over {letter, blank, quote, backslash} up to length 5.",
         "design_ref": "DESIGN.md section 4 C17",
         "note": "Witness documents are a finite sample for the grammar clause (necessary condition); the drawing clause is by construction (str::lines + whitespace guard). Genuine defect repaired by fix: commit cc9a377.",
         "technique": "MIR control dependence + grammar interpretation of witness documents + ADT field census",
@@ -74,7 +74,7 @@ CLAIMS = {
         "technique": "table abstract evaluation over syntax-tree literals + MIR constant folding + model conformance rules",
     },
     "C09": {
-        "text": "Structural decision of run continuity and merge plumbing: every run character (9 ASCII, all box-drawing line glyphs) yields edge-to-edge segment(s) that join the neighbour's across the cell border into one straight line (exact rationals); Line::merge keeps extreme end points and ORs the dashed flag, can_merge = touching and both ends collinear, Fragment::merge dispatches (Line,Line) to it; contacts are built only from merge_fragment_spans = merge_recursive, which is a fixpoint (recursion while the item count shrinks, push only when unmerged).",
+        "text": "Structural decision of run continuity and merge plumbing: every run character (9 ASCII, all box-drawing line glyphs) yields edge-to-edge segment(s) that join the neighbour's across the cell border into one straight line (exact rationals); Line::merge keeps extreme end points and ORs the dashed flag, can_merge = touching and both ends collinear, Fragment::merge dispatches (Line,Line) to it; contacts are built only from merge_fragment_spans = merge_recursive, which is a fixpoint (recursion while the item count shrinks, push only when unmerged). Line::merge returns Some exactly when can_merge(self, other): decided as a boolean function over the path conditions (value-only branches are free variables the result may not depend on).",
         "design_ref": "DESIGN.md section 4 C09",
         "note": "Does not decide util::is_collinear's float threshold nor the greedy merge order: the known split of long diagonals is outside the decided clause.",
         "technique": "table abstract evaluation + MIR expression/control-dependence rules + syntax-tree rule for the `||`",
@@ -98,7 +98,7 @@ CLAIMS = {
         "technique": "table abstract evaluation (exact rational geometry, SVG arc semantics) + syntax-tree agreement rules (Display/CSS/marker ids) + MIR expression patterns",
     },
     "C19": {
-        "text": "Structural decision on the MIR of svgbob_cli: what is written (fs::write, `{}\\n` on stdout, batch files) is the unmodified result of to_svg_with_settings on the input text and the settings local the options were stored into; the input text has exactly the three sources (inline with \\n expanded, file, stdin); each value-taking option is consumed under its own name into the Settings field of that name; every non-zero exit is control-dependent on an error outcome and exit(0) on success; no Result of a workspace function is dropped (exit, `?`, or counted failure controlling an Err return); the library prints nothing on the conversion path except two reviewed diagnostics. X7 no failure exit can follow the creation of the output file; X8 a discarded option parse error needs a clap validator on every option that reaches it.",
+        "text": "Structural decision on the MIR of svgbob_cli: what is written (fs::write, `{}\\n` on stdout, batch files) is the unmodified result of to_svg_with_settings on the input text and the settings local the options were stored into; the input text has exactly the three sources (inline with \\n expanded, file, stdin); each value-taking option is consumed under its own name into the Settings field of that name; every non-zero exit is control-dependent on an error outcome and exit(0) on success; no Result of a workspace function is dropped (exit, `?`, or counted failure controlling an Err return); the library prints nothing on the conversion path except two reviewed diagnostics. X7 no failure exit can follow the creation of the output file; X8 a discarded option parse error needs a clap validator on every option that reaches it. X9 batch mode: the destination handed to convert_file is <out dir>/format!('{}.svg', file_stem(<the entry converted>)); operations that cut or replace part of the name (set_extension, with_extension, trimming, case folding, lossy decoding) are reported.",
         "design_ref": "DESIGN.md section 4 C19",
         "note": "Trusts clap and std::fs; partial output on I/O failure is not decided. Two genuine defects repaired by fix: commits b17f08e and 2fe06fa.",
         "technique": "MIR expression patterns, control dependence (exit discipline), reachability census (stdout), syntax-tree option table",
@@ -110,7 +110,7 @@ CLAIMS = {
         "technique": "MIR expression patterns + framework-call census + reachability census",
     },
     "C04": {
-        "text": "Structural decision of text placement plumbing: interprocedural taint of byte lengths (String::len/str::len) never meets a cell coordinate, Cell::new or the cell width; every path of the two per-cell loops adds a fragment for the cell (must-pass-through on the CFG) with cell_text(ch) as last alternative and the iteration's own cell; cells are inserted at the plain enumerate indices guarded only by `ch != NUL && !whitespace`; text is anchored at a grid point of its start cell with unchanged content, cell_text sits at the origin of its own cell, absolute positions add the cell, merging concatenates in column order; wide characters are followed by width-1 NUL fillers which the escaping table drops. F4/F5: the column expansion of a character is conditional on nothing but the loops and width() being Some, and every column count uses the same width function.",
+        "text": "Structural decision of text placement plumbing: interprocedural taint of byte lengths (String::len/str::len) never meets a cell coordinate, Cell::new or the cell width; every path of the two per-cell loops adds a fragment for the cell (must-pass-through on the CFG) with cell_text(ch) as last alternative and the iteration's own cell; cells are inserted at the plain enumerate indices guarded only by `ch != NUL && !whitespace`; text is anchored at a grid point of its start cell with unchanged content, cell_text sits at the origin of its own cell, absolute positions add the cell, merging concatenates in column order; wide characters are followed by width-1 NUL fillers which the escaping table drops. F4/F5: the column expansion of a character is conditional on nothing but the loops and width() being Some, and every column count uses the same width function. F6 CellText.content has three writers only (constructor, struct update, clone). F7 every character-table entry is inserted under the character its property stores (one insert per listed entry, no other writer) and Property::from_char looks the tables up under its own argument, so the text fallback `property.ch` is the input character.",
         "design_ref": "DESIGN.md section 4 C04",
         "note": "Which adjacent runs end up merged into one element depends on span grouping at run time and is not decided. Genuine defect repaired by fix: commit 73b59aa.",
         "technique": "MIR taint analysis (bytes vs columns) + must-pass-through on the CFG + expression patterns",
@@ -128,7 +128,7 @@ CLAIMS = {
         "technique": "MIR panic-site census with idiom discharge (control dependence, expression patterns, truth tables), Tarjan SCCs for recursion variants, grammar nullability analysis",
     },
     "C05": {
-        "text": "Attribute clause only: the rect emitted for an endorsed group spans min..max over both bound points of all fragments, is unfilled, dashed iff any fragment is dashed, rounded radius taken from an arc of the group; an endorsed group becomes FragmentSpan(group cells, rect); the rect element maps x,y,width,height,rx and the class flags from the fields. R1 acceptance implies corner coincidence; R2 the recognition region never compares whole lines/fragments or reads the dashed flag (style-blind recognition).",
+        "text": "Attribute clause only: the rect emitted for an endorsed group spans min..max over both bound points of all fragments, is unfilled, dashed iff any fragment is dashed, rounded radius taken from an arc of the group; an endorsed group becomes FragmentSpan(group cells, rect); the rect element maps x,y,width,height,rx and the class flags from the fields. R1 acceptance implies corner coincidence; R2 the recognition region never compares whole lines/fragments or reads the dashed flag (style-blind recognition). R3 no coordinate is quantised in the recognition region and Line::has_endpoint - the corner test - is exact point equality of either end (boolean function). A3 the merge rules of C09.M1 evaluated under C05 (Line::merge merges exactly when can_merge).",
         "design_ref": "DESIGN.md section 4 C05",
         "note": "NOT decided: recognition soundness/completeness (is_rect / is_rounded_rect on merged float geometry) — the core of C05, including the ladder case.",
         "technique": "MIR expression patterns with closure following",
@@ -140,7 +140,7 @@ CLAIMS = {
         "technique": "MIR expression patterns + constant folding + sibling-branch cross-check",
     },
     "C10": {
-        "text": "Structural decision of span isolation: spans are consumed only by span.endorse(); Span::endorse takes only the span and nothing reachable from it (tables excluded) receives a CellBuffer or Settings; spans are the merge_recursive fixpoint of one span per cell under |dx|<=1 && |dy|<=1 adjacency; the cross-span pass cannot write geometry (FragmentTree.fragment written only by new, enclose* write css_tag/enclosing only); per-span results are never merged across spans. I2 demands the exact any-x-any is_adjacent shape of Span::can_merge (iterator or nested-loop form) with no additional deciding condition.",
+        "text": "Structural decision of span isolation: spans are consumed only by span.endorse(); Span::endorse takes only the span and nothing reachable from it (tables excluded) receives a CellBuffer or Settings; spans are the merge_recursive fixpoint of one span per cell under |dx|<=1 && |dy|<=1 adjacency; the cross-span pass cannot write geometry (FragmentTree.fragment written only by new, enclose* write css_tag/enclosing only); per-span results are never merged across spans. I2 demands the exact any-x-any is_adjacent shape of Span::can_merge (iterator or nested-loop form) with no additional deciding condition. I3 the functions that put the per-span results together (get_fragment_spans, endorse_to_fragment_spans, group_nodes_and_fragments and their private helpers) apply no pairwise relation (merge / can_merge / is_contacting ...) to the combined list.",
         "design_ref": "DESIGN.md section 4 C10",
         "note": "Relies on C07 (immutable tables) and C12.M1 (canvas). Float equality effects inside one span are not decided.",
         "technique": "call-graph reachability with parameter-type census, field write census, MIR expression patterns, syntax pattern for the adjacency predicate",
